@@ -3,6 +3,7 @@ package main
 import (
 	"fmt"
 	"go/constant"
+	"go/token"
 	"go/types"
 	"reflect"
 	"sort"
@@ -144,6 +145,12 @@ func runC18(c *Check) {
 	for _, fname := range []string{"AddFlags", "AddGlobalFlags"} {
 		fn := p.MustFunc(configPkg + "." + fname)
 		ctx := &Ctx{Fn: fn}
+		type flagReg struct {
+			method    string
+			name, def ssa.Value
+			in        ssa.Instruction
+		}
+		var regs []flagReg
 		for _, b := range fn.Blocks {
 			for _, in := range b.Instrs {
 				call, ok := in.(*ssa.Call)
@@ -158,8 +165,42 @@ func runC18(c *Check) {
 				if len(call.Common().Args) < 4 {
 					continue
 				}
+				// a table of (name, default, usage) rows registered by one loop: one registration per row
+				if al, nf := tableField(call.Common().Args[1], 0); al != nil {
+					if al2, df := tableField(call.Common().Args[2], 0); al2 == al && df != nf {
+						lit := ssa.Value(al)
+						for _, r := range *al.Referrers() {
+							if st, ok := r.(*ssa.Store); ok && st.Addr == ssa.Value(al) {
+								if ld, ok := st.Val.(*ssa.UnOp); ok && ld.Op == token.MUL {
+									if inner, ok := ld.X.(*ssa.Alloc); ok {
+										lit = inner
+									}
+								}
+							}
+						}
+						rows := litStores(lit)
+						expanded := false
+						for i := 0; ; i++ {
+							ns, ds := rows[fmt.Sprintf("[%d].%s", i, nf)], rows[fmt.Sprintf("[%d].%s", i, df)]
+							if len(ns) != 1 || len(ds) != 1 {
+								break
+							}
+							expanded = true
+							regs = append(regs, flagReg{method, ns[0], ds[0], in})
+						}
+						if expanded {
+							continue
+						}
+					}
+				}
+				regs = append(regs, flagReg{method, call.Common().Args[1], call.Common().Args[2], in})
+			}
+		}
+		for _, rg := range regs {
+			{
+				method, in := rg.method, rg.in
 				nFlags++
-				nameT := TermOf(call.Common().Args[1], ctx).unconv()
+				nameT := TermOf(rg.name, ctx).unconv()
 				var name string
 				if nameT.Op != "const" {
 					c.Bad("C18-R1", fname+" ⟂ non-constant-flag-name", fnName(fn), p.InstrPos(in), "flag registered under a non-constant name", nil)
@@ -191,7 +232,7 @@ func runC18(c *Check) {
 				}
 				c.OK("C18-R1", inst, fnName(fn), p.InstrPos(in), "resolves to "+leaf.goPath+" ("+types.TypeString(leaf.typ, shortQual)+")", true)
 				// R3 default
-				def := TermOf(call.Common().Args[2], ctx)
+				def := TermOf(rg.def, ctx)
 				want := leaf.goPath
 				if method == "Duration" {
 					want += ".Duration"
@@ -265,6 +306,89 @@ func runC18(c *Check) {
 				return false, "a new zero value"
 			}
 			return false, trunc(t.String(), 80)
+		}
+		// R11: the decode target shares no memory with the package-level defaults. The target is a
+		// shallow copy of DefaultConfig, so every option kept behind a pointer (or in a map) still
+		// *is* the default's: decoding a file value into it rewrites the default for every later
+		// Load of the process. Each such field is given a value of its own before the decoder runs.
+		if ok {
+			c.Doc("C18-R11", "VP+EO: before the decoder runs, every pointer- or map-typed field of the configuration reachable in the decode target (a shallow copy of DefaultConfig) is replaced, on every path, by a freshly allocated value: decoding otherwise writes file and flag values into the package-level defaults, and an option left out of a later Load's file and flags comes out as the earlier Load's value, not as its default.")
+			cfgT := p.TypesPkg(configPkg).Scope().Lookup("Config").Type()
+			var shared []string
+			var walkT func(t types.Type, path string, depth int)
+			walkT = func(t types.Type, path string, depth int) {
+				st, isSt := t.Underlying().(*types.Struct)
+				if !isSt || depth > 4 {
+					return
+				}
+				for i := 0; i < st.NumFields(); i++ {
+					ft := st.Field(i).Type()
+					pp := path + "." + fieldLabel(t, i)
+					switch ft.Underlying().(type) {
+					case *types.Pointer, *types.Map:
+						shared = append(shared, pp)
+					case *types.Struct:
+						walkT(ft, pp, depth+1)
+					}
+				}
+			}
+			walkT(cfgT, "", 0)
+			gl := BuildECFG(p, lv, ExpandOpts{MaxDepth: 0})
+			decs := gl.Select(func(x *Node) bool { return strings.HasSuffix(CallName(x), "mapstructure.Decoder).Decode") })
+			for _, sp := range shared {
+				sp := sp
+				fresh := gl.Select(func(x *Node) bool {
+					st, isS := x.In.(*ssa.Store)
+					if !isS || x.Kind != NInstr {
+						return false
+					}
+					root := st.Addr
+					path := ""
+					for {
+						fa, isFA := root.(*ssa.FieldAddr)
+						if !isFA {
+							break
+						}
+						path = "." + fieldLabel(fa.X.Type(), fa.Field) + path
+						root = fa.X
+					}
+					al, isA := root.(*ssa.Alloc)
+					if !isA || !strings.HasSuffix(al.Type().String(), "config.Config") || path != sp {
+						return false
+					}
+					// the stored value does not come out of the package-level defaults
+					vt := TermOf(st.Val, x.Ctx)
+					if vt.Contains(func(t *Term) bool { return t.Op == "global" && strings.HasSuffix(t.Name, "DefaultConfig") }) {
+						_, isAlloc := st.Val.(*ssa.Alloc)
+						return isAlloc // &copy where copy := *DefaultConfig.X is a value of its own
+					}
+					return true
+				})
+				inst := "decode-target ⟂ cfg" + sp + " not shared with the defaults"
+				switch {
+				case len(decs) == 0:
+					c.Unk("C18-R11", inst, fnName(lv), "", "anchor lost: the decoder call in the loader")
+				default:
+					c.Decide("C18-R11", inst, fnName(lv), p.InstrPos(decs[0].In), "the field is given a freshly allocated value on every path to the decoder",
+						"the decoder writes through cfg"+sp+", which still points into the package-level DefaultConfig: a value given by one Load's file or flags becomes the default of every later Load in the process (an option absent from file and flags then does not come out as its default)", gl,
+						gl.PathAvoiding([]*Node{gl.Entry}, nodeSet(decs), orPred(nodeSet(fresh), nodeSet(gl.Select(EdgeWhere(func(t *Term, pol bool, n *Node) bool {
+							// the default's field is nil: nothing is shared on this path
+							a, op, b, okc := canonCmp(t, pol)
+							if !okc || op != "==" {
+								return false
+							}
+							for _, pr := range [][2]*Term{{a, b}, {b, a}} {
+								if pr[1].unconv().Name == "nil" && strings.HasSuffix(pr[0].unconv().String(), sp) {
+									return true
+								}
+							}
+							return false
+						}))))))
+				}
+			}
+			if len(shared) == 0 {
+				c.OK("C18-R11", "decode-target ⟂ no pointer- or map-typed options", fnName(lv), p.Pos(lv.Pos()), "the configuration holds every option by value", true)
+			}
 		}
 		afterDecode := map[ssa.Instruction]bool{}
 		{
